@@ -3,7 +3,7 @@ from harness import casgen, common, refio, sessions
 from harness.common import bud
 
 PROP = "C02"
-MODULES = ["CassisModel.Properties.C02", "CassisModel.Properties.C02Closure", "CassisModel.Properties.C02RoundTrip"]
+MODULES = ["CassisModel.Properties.C02", "CassisModel.Properties.C02Closure", "CassisModel.Properties.C02RoundTrip", "CassisModel.Properties.C02RoundTripColl", "CassisModel.Properties.C02AppliesColl"]
 THEOREMS = [
     "Cassis.Json.parseFloatValue_special",
     "Cassis.Json.floatElem_roundtrip",
@@ -20,6 +20,9 @@ THEOREMS = [
     "Cassis.TS.closure_of_closed",
     "Cassis.Json.json_roundtrip_flat",
     "Cassis.Json.json_roundtrip_flat_fixpoint",
+    "Cassis.Json.json_roundtrip_coll",
+    "Cassis.Json.jcollFs_of_collFs",
+    "Cassis.Json.jcollAppliesB_sound",
 ]
 ASSUMPTIONS = [
     "the theorems cover the per-kind encode/decode pairs (float specials, array elements, the X[] range encoding of array features), the shape of the written document (sofas, then structures once each in ascending id order) and the dependency order of embedded types; the end-to-end statement load(save c) ~ c is checked on the implementation and between implementation and model (partial)",
@@ -72,7 +75,8 @@ def run_cases(ctx, out, cases, tag):
     for g, cfg in cases:
         ops = list(g.sb.ops)
         h0 = g.views["_InitialView"]
-        ops += [{"op": "json.save", "h": h0, "mode": cfg[0]}, {"op": "cas.dump", "h": h0, "fine": True},
+        ops += [{"op": "rt.applies", "h": h0},
+                {"op": "json.save", "h": h0, "mode": cfg[0]}, {"op": "cas.dump", "h": h0, "fine": True},
                 {"op": "ts.query", "ts": g.ts, "kind": "dump"}]
         stage_a.append(ops)
     ia = sessions.run_impl_sessions(stage_a)
@@ -133,7 +137,16 @@ def run_cases(ctx, out, cases, tag):
             def canon_op(i, x, ops2=ops2):
                 if i < len(ops2) and ops2[i]["op"] == "json.save" and isinstance(x, dict) and "ok" in x:
                     return {"ok": refio.canon_jdoc(x["ok"])}
+                if i < len(ops2) and ops2[i]["op"] == "rt.applies":
+                    return "model-only"
                 return x
+            ia_ = len(g.sb.ops)
+            ap = mb[k][ia_].get("ok") if len(mb[k]) > ia_ and isinstance(mb[k][ia_], dict) else None
+            ap = ap if isinstance(ap, dict) else {}
+            out.count("json-collection-theorem-applies:%s" % ("yes" if ap.get("jcoll") is True else "no"))
+            if ap.get("jcoll") is True and cfg == ("none", True, False) and ("ok" not in load_r or "ok" not in mb[k][n]):
+                out.oracle_failures.append({"scenario": sc2, "what": "the JSON round-trip theorem applies to this CAS but loading raised",
+                                            "actual": [load_r, mb[k][n]]})
             d = sessions.first_diff(io2, mb[k], canon_op)
             if d is not None:
                 out.disagreements.append({"scenario": sc2, "op_index": d, "op": ops2[d] if d < len(ops2) else None,
